@@ -4,6 +4,11 @@ Property theorems about the model evaluator (Model/Interp.lean `evalExpr`), for 
 every fuel, every VM state.  Helper lemmas live in ZnVerif/Proofs.
 -/
 import ZnVerif.Model.Interp
+import ZnVerif.Proofs.ExprRefine
+import ZnVerif.Proofs.ExprInit
+import ZnVerif.Proofs.ToyNum
+set_option linter.unusedSectionVars false
+set_option linter.unusedSimpArgs false
 
 namespace ZnVerif.Properties.C01
 open ZnVerif.Model
@@ -84,5 +89,382 @@ theorem order_on_non_number_is_error (n ln ty : Nat) (l r : Expr) (s s' s'' : VM
   rcases hty with rfl | rfl | rfl | rfl <;> cases c <;>
     simp_all [LogicAND, LogicOR, LogicXEQ, LogicEQ, LogicXNEQ, LogicNEQ, LogicGT, LogicGTE, LogicLT, LogicLTE,
       bind, getCell, rtErr, throwE]
+
+
+/-! ## The evaluator refines the spec semantics on the pure expression fragment
+
+`PureExpr e` (Proofs/ExprBase): `e` is built from number literals, names, texts, list and dictionary
+literals and the operators `+ - * / | %`, `== /= > < >= <=` / `为 不为 等于 …` and `且 或`, at any depth.
+`EnvRel ω d s σ`: every name `findElement` sees in the machine `s` (globals, then the current module's
+scope) is bound in the spec state `σ` (predefined, or in a block) to what its cell reads as within
+depth `d+1` (`contentW ω`: the deep read of Proofs/Content; `ω` answers for object/method/type cells,
+`content = contentW (fun _ => none)` is the read of plain values only), and names undefined on one
+side are undefined on the other.  `Frame s s'`: `s'` is `s` with a heap in which every old cell is
+unchanged (scopes, call stack, output, modules untouched).
+`d = 0` means every visible name holds a scalar or an empty container.
+
+The spec outcome `unspecified` (text-formatting `%` with a text on the left: C14) is excluded by hypothesis. -/
+
+open ZnVerif.Proofs ZnVerif.Spec
+
+/-- The master statement, for every number type, fuel, pure expression and related states: the spec
+leaves its state alone and, unless it says `unspecified`, the model only allocates and ends with the
+matching outcome — value whose cell reads as the spec value; runtime error ↔ raised fault with the same
+code (`specCode`: 84 is reported by the spec as 83); semantic error ↔ fatal; out of fuel ↔ out of fuel
+(for `d ≠ 0` also: model out of fuel inside a structural comparison where the spec raises 83). -/
+theorem eval_refines_spec (ω : Addr → Option (SVal ν)) (d n : Nat) (e : Expr) (s : VM ν) (σ : SState ν)
+    (he : PureExpr e) (henv : EnvRel ω d s σ) :
+    ∃ r', evalE n e σ = (r', σ) ∧
+      (r' = .unspecified ∨
+        ∃ r s', evalExpr n e s = (r, s') ∧ Frame s s' ∧
+          OutRel d (fun a v => contentW ω (n + d) s'.heap a = some v) r r') :=
+  sim_eval ω d n e s σ he henv
+
+/-- value clause: a model value is the spec's value, in any related states -/
+theorem eval_value_refines_spec (ω : Addr → Option (SVal ν)) (d n : Nat) (e : Expr) (s s' : VM ν) (σ : SState ν) (a : Addr)
+    (he : PureExpr e) (henv : EnvRel ω d s σ) (hs : (evalE n e σ).1 ≠ .unspecified)
+    (hm : evalExpr n e s = (.ok a, s')) :
+    ∃ v, evalE n e σ = (.ok v, σ) ∧ contentW ω (n + d) s'.heap a = some v ∧ Frame s s' := by
+  obtain ⟨r', h1, h2⟩ := eval_refines_spec ω d n e s σ he henv
+  rcases h2 with rfl | ⟨r, s1, h3, hF, hO⟩
+  · rw [h1] at hs; exact absurd rfl hs
+  · rw [hm] at h3; cases h3
+    cases hO with
+    | ok hq => exact ⟨_, h1, hq, hF⟩
+
+/-- error clause: a model runtime error is the spec's raised fault with the same code, a semantic error
+(malformed identifier) is the spec's fatal error -/
+theorem eval_error_refines_spec (ω : Addr → Option (SVal ν)) (d n : Nat) (e : Expr) (s s' : VM ν) (σ : SState ν)
+    (he : PureExpr e) (henv : EnvRel ω d s σ) (hs : (evalE n e σ).1 ≠ .unspecified) :
+    (∀ c, evalExpr n e s = (.err (.rt c), s') → evalE n e σ = (.raise (.fault (specCode c)), σ) ∧ Frame s s') ∧
+    (∀ c, evalExpr n e s = (.err (.sem c), s') → evalE n e σ = (.fatal c, σ) ∧ Frame s s') := by
+  obtain ⟨r', h1, h2⟩ := eval_refines_spec ω d n e s σ he henv
+  rcases h2 with rfl | ⟨r, s1, h3, hF, hO⟩
+  · rw [h1] at hs; exact absurd rfl hs
+  · constructor <;> intro c hm <;> rw [hm] at h3 <;> cases h3 <;> cases hO <;> exact ⟨h1, hF⟩
+
+/-- on the pure fragment the model never panics, never leaves the modelled part, and raises no other
+kind of error (signals, exception errors) -/
+theorem eval_pure_outcomes (ω : Addr → Option (SVal ν)) (d n : Nat) (e : Expr) (s : VM ν) (σ : SState ν)
+    (he : PureExpr e) (henv : EnvRel ω d s σ) (hs : (evalE n e σ).1 ≠ .unspecified) :
+    (∃ a, (evalExpr n e s).1 = .ok a) ∨ (∃ c, (evalExpr n e s).1 = .err (.rt c)) ∨
+    (∃ c, (evalExpr n e s).1 = .err (.sem c)) ∨ (evalExpr n e s).1 = .fuel := by
+  obtain ⟨r', h1, h2⟩ := eval_refines_spec ω d n e s σ he henv
+  rcases h2 with rfl | ⟨r, s1, h3, hF, hO⟩
+  · rw [h1] at hs; exact absurd rfl hs
+  · rw [h3]
+    cases hO with
+    | ok _ => exact .inl ⟨_, rfl⟩
+    | rt c => exact .inr (.inl ⟨c, rfl⟩)
+    | sem c => exact .inr (.inr (.inl ⟨c, rfl⟩))
+    | fuel => exact .inr (.inr (.inr rfl))
+    | fuelCmp _ => exact .inr (.inr (.inr rfl))
+
+/-- converse direction: what the spec answers, the model answers (spec value ⇒ model value reading as it,
+spec fault ⇒ model runtime error or — `d ≠ 0`, fault 83 only — out of fuel, spec out of fuel ⇒ model out of fuel) -/
+theorem spec_outcome_is_models (ω : Addr → Option (SVal ν)) (d n : Nat) (e : Expr) (s : VM ν) (σ : SState ν)
+    (he : PureExpr e) (henv : EnvRel ω d s σ) :
+    (∀ v σ', evalE n e σ = (.ok v, σ') →
+      ∃ a s', evalExpr n e s = (.ok a, s') ∧ contentW ω (n + d) s'.heap a = some v ∧ Frame s s') ∧
+    (∀ σ', evalE n e σ = (.fuel, σ') → ∃ s', evalExpr n e s = (.fuel, s')) ∧
+    (∀ c σ', evalE n e σ = (.raise (.fault c), σ') →
+      (∃ c' s', evalExpr n e s = (.err (.rt c'), s') ∧ c = specCode c') ∨
+      (d ≠ 0 ∧ c = 83 ∧ ∃ s', evalExpr n e s = (.fuel, s'))) := by
+  obtain ⟨r', h1, h2⟩ := eval_refines_spec ω d n e s σ he henv
+  refine ⟨?_, ?_, ?_⟩
+  · intro v σ' hv
+    rw [h1] at hv; cases hv
+    rcases h2 with h | ⟨r, s1, h3, hF, hO⟩
+    · cases h
+    · cases hO with
+      | ok hq => exact ⟨_, s1, h3, hq, hF⟩
+  · intro σ' hv
+    rw [h1] at hv; cases hv
+    rcases h2 with h | ⟨r, s1, h3, hF, hO⟩
+    · cases h
+    · cases hO with
+      | fuel => exact ⟨s1, h3⟩
+  · intro c σ' hv
+    rw [h1] at hv; cases hv
+    rcases h2 with h | ⟨r, s1, h3, hF, hO⟩
+    · cases h
+    · cases hO with
+      | rt c' => exact .inl ⟨c', s1, h3, rfl⟩
+      | fuelCmp hd => exact .inr ⟨hd, rfl, s1, h3⟩
+
+/-- The full fuel clause one would like: the model runs out of fuel exactly when the spec does.
+It does NOT hold for the spec semantics as written: `Spec.valEq` answers `none` both for "not
+comparable" and for "out of fuel", and `evalE` turns every `none` into fault 83, whereas the model's
+`compareXEQ` reports out-of-fuel as such.  `eval_fuel_refines_spec_full_fails` below is the witness
+(`x == x` with `x = [[1]]` and fuel 3).  What is proved instead: `eval_fuel_refines_spec_partial`
+(for every `d`, with that one extra alternative) and `eval_refines_spec_scalar` (exact when `d = 0`).
+Missing for the full statement: a three-valued `valEq` in Spec/Sem.lean (reported, not changed here). -/
+def eval_fuel_refines_spec_full : Prop :=
+  ∀ (μ : Type) [NumOps μ] (ω : Addr → Option (SVal μ)) (d n : Nat) (e : Expr) (s s' : VM μ) (σ : SState μ),
+    PureExpr e → EnvRel ω d s σ → (evalE n e σ).1 ≠ .unspecified →
+    evalExpr n e s = (.fuel, s') → evalE n e σ = (.fuel, σ)
+
+/-- fuel clause as far as it holds for every `d` -/
+theorem eval_fuel_refines_spec_partial (ω : Addr → Option (SVal ν)) (d n : Nat) (e : Expr) (s s' : VM ν) (σ : SState ν)
+    (he : PureExpr e) (henv : EnvRel ω d s σ) (hs : (evalE n e σ).1 ≠ .unspecified)
+    (hm : evalExpr n e s = (.fuel, s')) :
+    (evalE n e σ = (.fuel, σ) ∨ (d ≠ 0 ∧ evalE n e σ = (.raise (.fault 83), σ))) ∧ Frame s s' := by
+  obtain ⟨r', h1, h2⟩ := eval_refines_spec ω d n e s σ he henv
+  rcases h2 with rfl | ⟨r, s1, h3, hF, hO⟩
+  · rw [h1] at hs; exact absurd rfl hs
+  · rw [hm] at h3; cases h3
+    cases hO with
+    | fuel => exact ⟨.inl h1, hF⟩
+    | fuelCmp hd => exact ⟨.inr ⟨hd, h1⟩, hF⟩
+
+/-- Full strength when the visible names hold scalars (or empty containers), for all pure expressions
+including nested list / dictionary literals and structural comparisons of them: value ↔ value (the
+result cell reads as the spec value), runtime error ↔ fault with the same code, semantic error ↔ fatal,
+out of fuel ↔ out of fuel; the model state is only extended, the spec state unchanged. -/
+theorem eval_refines_spec_scalar (ω : Addr → Option (SVal ν)) (n : Nat) (e : Expr) (s : VM ν) (σ : SState ν)
+    (he : PureExpr e) (henv : EnvRel ω 0 s σ) (hs : (evalE n e σ).1 ≠ .unspecified) :
+    ∃ r s' r', evalExpr n e s = (r, s') ∧ evalE n e σ = (r', σ) ∧ Frame s s' ∧
+      ((∃ a v, r = .ok a ∧ r' = .ok v ∧ contentW ω n s'.heap a = some v) ∨
+       (∃ c, r = .err (.rt c) ∧ r' = .raise (.fault (specCode c))) ∨
+       (∃ c, r = .err (.sem c) ∧ r' = .fatal c) ∨
+       (r = .fuel ∧ r' = .fuel)) := by
+  obtain ⟨r', h1, h2⟩ := eval_refines_spec ω 0 n e s σ he henv
+  rcases h2 with rfl | ⟨r, s1, h3, hF, hO⟩
+  · rw [h1] at hs; exact absurd rfl hs
+  · refine ⟨r, s1, r', h3, h1, hF, ?_⟩
+    cases hO with
+    | ok hq => exact .inl ⟨_, _, rfl, rfl, hq⟩
+    | rt c => exact .inr (.inl ⟨c, rfl, rfl⟩)
+    | sem c => exact .inr (.inr (.inl ⟨c, rfl, rfl⟩))
+    | fuel => exact .inr (.inr (.inr ⟨rfl, rfl⟩))
+    | fuelCmp hd => exact absurd rfl hd
+
+/-! ## Structural equality (为 不为 == /=) -/
+
+/-- on plain values (numbers, texts, booleans, 空, lists and dictionaries of plain values, read by
+`content`) the evaluator's comparison never errors and answers exactly the spec's `valEq`
+(given fuel for the depth of the values) -/
+theorem xeq_total_on_plain (n k : Nat) (s : VM ν) (l r : Addr) (a b : SVal ν)
+    (hl : content k s.heap l = some a) (hr : content k s.heap r = some b) (hk : k ≤ n) :
+    ∃ bv, compareXEQ n l r s = (.ok bv, s) ∧ valEq n a b = some bv := by
+  obtain ⟨X, hX, hR⟩ := cmp_sim (fun _ => none) s n k l r a b hl hr
+  generalize valEq n a b = o at hR
+  cases hR with
+  | ok bv => exact ⟨bv, hX, rfl⟩
+  | err h => exact absurd (fun _ => rfl) h
+  | fuel h => omega
+
+/-- operands of different plain types are simply unequal: 为 / == answer 假 and 不为 / /= answer 真,
+whatever the two values are (the right operand may even be an object or a method) -/
+theorem xeq_types_differ_false (n ln : Nat) (l r : Expr) (s s1 s2 : VM ν) (a b : Addr) (cl cr : Cell ν) (t : Nat)
+    (hl : evalExpr n l s = (.ok a, s1)) (hr : evalExpr n r s1 = (.ok b, s2))
+    (ha : s2.heap[a]? = some cl) (hb : s2.heap[b]? = some cr)
+    (h1 : cellTag cl = some t) (h2 : cellTag cr ≠ some t) :
+    (∀ ty, ty = LogicXEQ ∨ ty = LogicEQ → evalExpr (n+1) (.logic ln ty l r) s = newBool false s2) ∧
+    (∀ ty, ty = LogicXNEQ ∨ ty = LogicNEQ → evalExpr (n+1) (.logic ln ty l r) s = newBool true s2) := by
+  have hc : compareXEQ n a b s2 = (.ok false, s2) := by
+    cases n with
+    | zero => simp [evalExpr, outOfFuel] at hl
+    | succ m => exact compareXEQ_tags_differ m s2 a b cl cr ha hb t h1 h2
+  constructor <;> intro ty hty <;> rcases hty with rfl | rfl <;> simp only [evalExpr] <;>
+    simp [LogicAND, LogicOR, LogicXEQ, LogicEQ, LogicXNEQ, LogicNEQ, bind, hl, hr, hc]
+
+/-- spec-level: values of different plain types are unequal (`valEq` answers `some false`) -/
+theorem spec_types_differ_false (n : Nat) (a b : SVal ν) (t : Nat)
+    (h1 : valTag a = some t) (h2 : valTag b ≠ some t) : valEq (n+1) a b = some false :=
+  valEq_tags_differ n a b t h1 h2
+
+/-! ## The documented table, read directly off the spec semantics (`Spec.evalE`) -/
+
+/-- 且 with a left operand 假 is 假 and the right operand is not evaluated (`r` is arbitrary, the state is the one after `l`) -/
+theorem spec_and_short_circuit (n ln : Nat) (l r : Expr) (σ σ' : SState ν)
+    (hl : evalE n l σ = (.ok (.bool false), σ')) :
+    evalE (n+1) (.logic ln LogicAND l r) σ = (.ok (.bool false), σ') := by
+  simp only [evalE]
+  simp [LogicAND, LogicOR, bind, hl, pure]
+
+/-- 或 with a left operand 真 is 真 and the right operand is not evaluated -/
+theorem spec_or_short_circuit (n ln : Nat) (l r : Expr) (σ σ' : SState ν)
+    (hl : evalE n l σ = (.ok (.bool true), σ')) :
+    evalE (n+1) (.logic ln LogicOR l r) σ = (.ok (.bool true), σ') := by
+  simp only [evalE]
+  simp [LogicAND, LogicOR, bind, hl, pure]
+
+/-- `/`, `|` and `%` with a zero divisor raise fault 90, never a value -/
+theorem spec_div_zero (n ln ty : Nat) (l r : Expr) (σ σ1 σ2 : SState ν) (x y : ν)
+    (hty : ty = ArithDiv ∨ ty = ArithIntDiv ∨ ty = ArithModulo)
+    (hl : evalE n l σ = (.ok (.num x), σ1)) (hr : evalE n r σ1 = (.ok (.num y), σ2))
+    (hz : NumOps.isZero y = true) :
+    evalE (n+1) (.arith ln ty l r) σ = (.raise (.fault 90), σ2) := by
+  simp only [evalE]
+  rcases hty with rfl | rfl | rfl <;>
+    simp [ArithDiv, ArithIntDiv, ArithModulo, ArithAdd, ArithSub, ArithMul, bind, hl, hr, hz, fault, sfail]
+
+/-- `a | b` is `floor (a / b)` -/
+theorem spec_floor_div (n ln : Nat) (l r : Expr) (σ σ1 σ2 : SState ν) (x y : ν)
+    (hl : evalE n l σ = (.ok (.num x), σ1)) (hr : evalE n r σ1 = (.ok (.num y), σ2))
+    (hz : NumOps.isZero y = false) :
+    evalE (n+1) (.arith ln ArithIntDiv l r) σ = (.ok (.num (NumOps.floor (NumOps.div x y))), σ2) := by
+  simp only [evalE]
+  simp [ArithDiv, ArithIntDiv, ArithModulo, ArithAdd, ArithSub, ArithMul, bind, hl, hr, hz, pure]
+
+/-- `a % b` is `a − floor (a / b) · b` -/
+theorem spec_modulo (n ln : Nat) (l r : Expr) (σ σ1 σ2 : SState ν) (x y : ν)
+    (hl : evalE n l σ = (.ok (.num x), σ1)) (hr : evalE n r σ1 = (.ok (.num y), σ2))
+    (hz : NumOps.isZero y = false) :
+    evalE (n+1) (.arith ln ArithModulo l r) σ =
+      (.ok (.num (NumOps.sub x (NumOps.mul (NumOps.floor (NumOps.div x y)) y))), σ2) := by
+  simp only [evalE]
+  simp [ArithDiv, ArithIntDiv, ArithModulo, ArithAdd, ArithSub, ArithMul, bind, hl, hr, hz, pure]
+
+/-! ## Non-vacuity: concrete expressions on the initial machine, numbers instantiated by a toy `Int`
+
+`envRel_init` (Proofs/ExprInit): the initial machine `initVM ()` (predefined names 真 假 空 异常 显示 取随机数 数值)
+and the initial spec state `{}` satisfy `EnvRel initω 0`, for every number type. -/
+
+/-- the hypothesis `EnvRel` of the refinement theorems holds of the real initial states, for every number type -/
+theorem initial_states_related : EnvRel (ν := ν) initω 0 (initVM ()) ({} : SState ν) := envRel_init
+
+section examples
+attribute [local instance] toyNumOps
+
+private def lit (t : String) : Expr := .id ⟨0, t⟩
+/-- `1 + 2 * 3` -/
+private def ex1 : Expr := .arith 0 ArithAdd (lit "1") (.arith 0 ArithMul (lit "2") (lit "3"))
+/-- `假 且 (1 / 0 == 1)` -/
+private def ex2 : Expr :=
+  .logic 0 LogicAND (lit "假") (.logic 0 LogicEQ (.arith 0 ArithDiv (lit "1") (lit "0")) (lit "1"))
+/-- `5 % 0` -/
+private def ex3 : Expr := .arith 0 ArithModulo (lit "5") (lit "0")
+/-- `[1, “a”, [甲 = 2]] 为 [1, “a”, [甲 = 2]]` -/
+private def ex4 : Expr :=
+  let v : Expr := .arr 0 [lit "1", .str 0 "a", .hm 0 [(lit "甲", lit "2")]]
+  .logic 0 LogicXEQ v v
+/-- `1 < “a”` -/
+private def ex5 : Expr := .logic 0 LogicLT (lit "1") (.str 0 "a")
+/-- `7 | 2 不为 真` -/
+private def ex6 : Expr := .logic 0 LogicXNEQ (.arith 0 ArithIntDiv (lit "7") (lit "2")) (lit "真")
+
+private theorem pure1 : PureExpr ex1 := .arith _ _ _ _ (by decide) (.id _) (.arith _ _ _ _ (by decide) (.id _) (.id _))
+private theorem pure2 : PureExpr ex2 :=
+  .logic _ _ _ _ (by decide) (.id _) (.logic _ _ _ _ (by decide) (.arith _ _ _ _ (by decide) (.id _) (.id _)) (.id _))
+private theorem pure3 : PureExpr ex3 := .arith _ _ _ _ (by decide) (.id _) (.id _)
+private theorem pure4 : PureExpr ex4 := by
+  have hv : PureExpr (.arr 0 [lit "1", .str 0 "a", .hm 0 [(lit "甲", lit "2")]]) := by
+    refine .arr _ _ fun e he => ?_
+    simp only [List.mem_cons, List.not_mem_nil, or_false] at he
+    rcases he with rfl | rfl | rfl
+    · exact .id _
+    · exact .str _ _
+    · refine .hm _ _ fun kv hkv => ?_
+      simp only [List.mem_cons, List.not_mem_nil, or_false] at hkv
+      subst hkv; exact .id _
+  exact .logic _ _ _ _ (by decide) hv hv
+private theorem pure5 : PureExpr ex5 := .logic _ _ _ _ (by decide) (.id _) (.str _ _)
+
+/-- observable part of a model outcome: `inl` the number/boolean the result cell reads as, `inr` the runtime error code -/
+private def modelObs (r : Res Addr × VM Int) : Option (Sum (Option Int × Option Bool) Nat) :=
+  match r with
+  | (.ok a, s) => (content 8 s.heap a).map fun v => .inl (svalNum v, svalBool v)
+  | (.err (.rt c), _) => some (.inr c)
+  | _ => none
+
+-- `1 + 2 * 3` is 7, in the model and in the spec; the theorem's hypotheses hold and its conclusion is that fact
+example : modelObs (evalExpr 3 ex1 (initVM ())) = some (.inl (some 7, none)) := by decide +kernel
+example : evalE 3 ex1 ({} : SState Int) = (.ok (.num 7), {}) := rfl
+example : ∃ a s', evalExpr 3 ex1 (initVM ()) = (.ok a, s') ∧ contentW initω 3 s'.heap a = some (.num (7 : Int)) ∧
+    Frame (initVM ()) s' := by
+  obtain ⟨a, s', h, hc, hF⟩ := (spec_outcome_is_models (ν := Int) initω 0 3 ex1 (initVM ()) {} pure1 envRel_init).1 _ _ rfl
+  exact ⟨a, s', h, hc, hF⟩
+
+-- `假 且 (1/0 == 1)` is 假: the division by zero on the right is never evaluated
+example : modelObs (evalExpr 4 ex2 (initVM ())) = some (.inl (none, some false)) := by decide +kernel
+example : evalE 4 ex2 ({} : SState Int) = (.ok (.bool false), {}) := rfl
+example : ∃ a s', evalExpr 4 ex2 (initVM ()) = (.ok a, s') ∧ contentW initω 4 s'.heap a = some (.bool false : SVal Int) := by
+  obtain ⟨a, s', h, hc, _⟩ := (spec_outcome_is_models (ν := Int) initω 0 4 ex2 (initVM ()) {} pure2 envRel_init).1 _ _ rfl
+  exact ⟨a, s', h, hc⟩
+
+-- `5 % 0` is error 90 in both
+example : modelObs (evalExpr 2 ex3 (initVM ())) = some (.inr 90) := by decide +kernel
+example : evalE 2 ex3 ({} : SState Int) = (.raise (.fault 90), {}) := rfl
+
+-- structural equality of nested literals
+example : modelObs (evalExpr 5 ex4 (initVM ())) = some (.inl (none, some true)) := by decide +kernel
+example : evalE 5 ex4 ({} : SState Int) = (.ok (.bool true), {}) := rfl
+example : PureExpr ex4 ∧ (evalE 5 ex4 ({} : SState Int)).1 ≠ .unspecified :=
+  ⟨pure4, by rw [show evalE 5 ex4 ({} : SState Int) = (.ok (.bool true), {}) from rfl]; simp⟩
+
+-- the one code on which model and spec differ (`specCode`): a non-number right operand of an ordering
+example : modelObs (evalExpr 2 ex5 (initVM ())) = some (.inr 84) := by decide +kernel
+example : evalE 2 ex5 ({} : SState Int) = (.raise (.fault 83), {}) := rfl
+example : specCode 84 = 83 ∧ specCode 83 = 83 ∧ specCode 90 = 90 := by decide
+
+-- different plain types are unequal: `7 | 2 不为 真` is 真 (and 7 | 2 = 3)
+example : modelObs (evalExpr 3 ex6 (initVM ())) = some (.inl (none, some true)) := by decide +kernel
+example : evalE 3 ex6 ({} : SState Int) = (.ok (.bool true), {}) := rfl
+
+/-! ### the full fuel clause fails for the spec semantics as written -/
+
+/-- the initial machine plus a global `x = [[1]]` -/
+private def sW : VM Int :=
+  { initVM (ν := Int) () with
+    heap := (initVM (ν := Int) ()).heap ++ #[.num 1, .arr [7], .arr [8]],
+    globals := ("x", 9) :: (initVM (ν := Int) ()).globals }
+private def σW : SState Int := { env := [[{ name := "x", const := false, val := .list [.list [.num 1]] }]] }
+/-- `x == x` -/
+private def exW : Expr := .logic 0 LogicEQ (lit "x") (lit "x")
+
+private theorem envRel_W : EnvRel initω 2 sW σW := by
+  intro name
+  have hscope : getScope sW.csModuleID sW = none := rfl
+  by_cases h0 : name = "x"
+  · subst h0; simp [visible, specVisible, sW, σW, initVM, lookup, predefVal, contentW, findB, allSome]
+  by_cases h1 : name = "真"
+  · subst h1; simp [visible, specVisible, sW, initVM, lookup, predefVal, contentW]
+  by_cases h2 : name = "假"
+  · subst h2; simp [visible, specVisible, sW, initVM, lookup, predefVal, contentW]
+  by_cases h3 : name = "空"
+  · subst h3; simp [visible, specVisible, sW, initVM, lookup, predefVal, contentW]
+  by_cases h4 : name = "异常"
+  · subst h4; simp [visible, specVisible, sW, initVM, lookup, predefVal, contentW, initω, isOpaque, exceptionClassName]
+  by_cases h5 : name = "显示"
+  · subst h5; simp [visible, specVisible, sW, initVM, lookup, predefVal, contentW, initω, isOpaque]
+  by_cases h6 : name = "取随机数"
+  · subst h6; simp [visible, specVisible, sW, initVM, lookup, predefVal, contentW, initω, isOpaque]
+  by_cases h7 : name = "数值"
+  · subst h7; simp [visible, specVisible, sW, initVM, lookup, predefVal, contentW, toyNumOps]
+  · have hv : visible sW name = none := by
+      simp only [visible, hscope]
+      simp [sW, initVM, lookup, h0, h1, h2, h3, h4, h5, h6, h7]
+    have hp : predefVal (ν := Int) name = none := by
+      unfold predefVal
+      split <;> simp_all
+    have hf : findB name σW.env = none := by
+      have : ("x" == name) = false := by simp; exact fun e => h0 e.symm
+      simp [σW, findB, List.find?, this]
+    simp [hv, specVisible, hp, hf]
+
+private def resIsFuel {α} : Res α → Bool
+  | .fuel => true
+  | _ => false
+private def rIsFault83 : R Int (SVal Int) → Bool
+  | .raise (.fault 83) => true
+  | _ => false
+
+/-- with fuel 3 the model's comparison of `[[1]]` with itself runs out of fuel, the spec raises fault 83 -/
+theorem eval_fuel_refines_spec_full_fails : ¬ eval_fuel_refines_spec_full := by
+  intro h
+  have hm : resIsFuel (evalExpr 3 exW sW).1 = true := by decide +kernel
+  have hs : rIsFault83 (evalE 3 exW σW).1 = true := by decide +kernel
+  have hm' : evalExpr 3 exW sW = (.fuel, (evalExpr 3 exW sW).2) := by
+    generalize evalExpr 3 exW sW = p at hm
+    obtain ⟨r, s'⟩ := p
+    cases r <;> simp [resIsFuel] at hm ⊢
+  have := h Int initω 2 3 exW sW _ σW (.logic _ _ _ _ (by decide) (.id _) (.id _)) envRel_W
+    (by generalize (evalE 3 exW σW).1 = r at hs; intro e; subst e; simp [rIsFault83] at hs) hm'
+  rw [this] at hs
+  simp [rIsFault83] at hs
+
+end examples
 
 end ZnVerif.Properties.C01
